@@ -75,7 +75,7 @@ class C05(runner.Check):
           'pool, over-delivery, multi-item metadata updates, delete-study with trials) runs on the real '
           'servicer over an SQLite file; at every SQL statement / commit boundary of the armed ops the '
           'database file and its journal are captured (byte-identical images merged) and a brand-new '
-          'servicer is started on each image; checked: readable, acknowledged state present, interrupted '
+          'servicer is started on each image; checked: readable, acknowledged state present (incl. the early-stopping records), interrupted '
           'single-resource call all-or-nothing, legal transitions and fresh ids, and liveness (interrupted '
           'and fresh worker obtain trials through the real client within 50 simulated polls and can '
           'complete one); distinct = hash of (interrupted op kind, image sequence number, hot journal?, '
